@@ -672,3 +672,35 @@ func isLoopCarried(phi *ssa.Phi) bool {
 	}
 	return false
 }
+
+// returnedValues resolves the values a Return yields, seeing through the
+// spill cell go/ssa introduces for functions with defers (`*t0 = v;
+// rundefers; t = *t0; return t`).
+func returnedValues(r *ssa.Return) []ssa.Value {
+	out := make([]ssa.Value, len(r.Results))
+	for i, v := range r.Results {
+		out[i] = v
+		u, ok := v.(*ssa.UnOp)
+		if !ok || u.Op != token.MUL {
+			continue
+		}
+		a, ok := u.X.(*ssa.Alloc)
+		if !ok {
+			continue
+		}
+		// last store to the cell in the same block before the load
+		var last ssa.Value
+		for _, in := range r.Block().Instrs {
+			if in == ssa.Instruction(u) {
+				break
+			}
+			if st, ok := in.(*ssa.Store); ok && st.Addr == ssa.Value(a) {
+				last = st.Val
+			}
+		}
+		if last != nil {
+			out[i] = last
+		}
+	}
+	return out
+}
